@@ -25,7 +25,7 @@ def new_result(fam: str) -> dict:
         'fam': fam, 'evals': 0, 'programs': 0, 'nontrivial': 0,
         'distinct': 0, 'out': collections.Counter(), 'checked': 0,
         'viol': {}, 'samples': [], 'skipped': collections.Counter(),
-        'flaky': 0, 'notes': collections.Counter(),
+        'flaky': 0, 'notes': collections.Counter(), 'cpu': 0.0,
     }
 
 
@@ -42,7 +42,7 @@ def add_viol(res: dict, sig: str, what: str, rep: Any, size: int) -> None:
 
 def merge(total: dict, res: dict) -> None:
     for k in ('evals', 'programs', 'nontrivial', 'distinct', 'checked',
-              'flaky'):
+              'flaky', 'cpu'):
         total[k] += res[k]
     total['out'].update(res['out'])
     total['skipped'].update(res['skipped'])
@@ -779,7 +779,10 @@ def guarded(arg: tuple) -> tuple:
     if deadline is not None and time.time() > deadline:
         return ('skipped', None)
     try:
-        return ('ok', work(task))
+        c0 = time.process_time()
+        res = work(task)
+        res['cpu'] = time.process_time() - c0
+        return ('ok', res)
     except (KeyboardInterrupt, SystemExit):
         raise
     except BaseException as e:  # noqa
